@@ -26,7 +26,7 @@ static std::string wire(const Req& r, const std::vector<size_t>& chunks) {
 	return s;
 }
 // feeds `stream` in the given pieces (pause between them), the reader takes `n` requests from ONE connection
-static int exchange(const std::vector<Req>& reqs, const std::string& stream, const std::vector<size_t>& cuts, const char* what, int pause_us = 15000) {
+static int exchange(const std::vector<Req>& reqs, const std::string& stream, const std::vector<size_t>& cuts, const char* what, int pause_us = 40000) {
 	int fd[2]; if (socketpair(AF_UNIX, SOCK_STREAM, 0, fd) != 0) return 2;
 	std::thread w([&] { size_t off = 0; for (size_t i = 0; i <= cuts.size(); i++) { size_t end = i < cuts.size() ? cuts[i] : stream.size(); if (end > stream.size()) end = stream.size(); if (end > off) { if (write(fd[0], stream.data() + off, end - off)) {} off = end; usleep(pause_us); } } });
 	int rc = 0;
